@@ -95,6 +95,11 @@ mod inner {
 #[cfg(unix)]
 mod tz_info;
 
+#[cfg(all(unix, feature = "__verif"))]
+#[doc(hidden)]
+#[allow(missing_docs, unreachable_pub)]
+pub mod verif;
+
 /// The local timescale.
 ///
 /// Using the [`TimeZone`](./trait.TimeZone.html) methods
